@@ -265,6 +265,12 @@ def r_heap_guard(ctx):
 def slice_of(t, base_pred):
     if t[0] == 'sub' and t[2][0] == 'slice' and base_pred(t[1]):
         return t[2][1], t[2][2], t[2][3]
+    # x[:a][-c:]  is  x[a - c : a]  whenever a >= c (the domain of the tiling identities)
+    if t[0] == 'sub' and t[2][0] == 'slice' and t[1][0] == 'sub' and t[1][2][0] == 'slice' and base_pred(t[1][1]):
+        inner, outer = t[1][2], t[2]
+        if inner[1] == ('c', None) and inner[3] == ('c', None) and outer[2] == ('c', None) and outer[3] == ('c', None) \
+                and outer[1][0] == 'un' and outer[1][1] == '-':
+            return ('bin', '-', inner[2], outer[1][2]), inner[2], ('c', None)
     return None
 
 
@@ -540,6 +546,35 @@ def r_cand(ctx):
                   'the %s candidate is appended without a reliability flag that is cleared exactly on the non-arc paths of '
                   'its tail walk: candidates that leave the graph are returned' % tag,
                   inputs='chunks whose tail is not a walk after the tentative edit')
+    # every candidate string is joined from a fresh copy of the chunk that only its own edit modified
+    for nd, tag, arg in apps:
+        joined = arg[2]
+        src = None
+        if joined[0] == 'call' and joined[1][0] == 'attr' and joined[1][2] == 'join' and len(joined[2]) == 1:
+            src = joined[2][0]
+        fresh, why = False, 'candidate string is %s' % show(joined)[:60]
+        if src is not None and src[0] == 'v' and isinstance(src[2], tuple) and len(src[2]) == 1 and \
+                f.defs[src[2][0]].kind == 'mutate':
+            m = f.defs[src[2][0]]
+            before = f.reaching(m.node, src[1])
+            if len(before) == 1 and f.defs[before[0]].kind == 'assign':
+                bt = TermBuilder(f, f.defs[before[0]].node).def_term(before[0])
+                fresh = bt == ('call', ('g', 'builtins.list'), (strand,), ())
+                why = 'the buffer starts as %s' % show(bt)[:60]
+            else:
+                why = 'the buffer `%s` was already modified by an earlier candidate (definitions %s reach the edit)' % (
+                    src[1], [f.defs[b].kind for b in before])
+        elif src is not None:
+            # an expression: it must not read a buffer that other candidates mutate
+            dirty = [x for x in walk_term(src) if x[0] == 'v' and isinstance(x[2], tuple) and
+                     any(f.defs[b].kind == 'mutate' for b in x[2])]
+            fresh = not dirty and any(x == strand for x in walk_term(src))
+            if dirty:
+                why = 'it is assembled from the shared buffer `%s`, which earlier candidates modify in place' % dirty[0][1]
+        run.check(fresh, 'R-CAND', f, '%s:built-from-fresh-copy' % tag, nd.lineno,
+                  'joined from list(chunk) modified only by this candidate\'s edit',
+                  "the %s candidate is not built from a fresh copy of the chunk: %s - an accepted earlier candidate leaks "
+                  "into later ones" % (tag, why), inputs='look-back positions with two or more accepted candidates')
     # edit position and tail-walk geometry
     for nd in f.nodes:
         for d in nd.defs:
@@ -678,3 +713,43 @@ def r_ret(ctx):
         else:
             run.undecided('R-RET', f, role + ':source', nd.lineno, 'returned collection %s not recognised' % show(src)[:80])
     run.floor('R-RET', 'returns of repair_dna', n, 2)
+
+
+def r_sites(ctx):
+    """repair_dna: every fragment path_matching returns for an error site reaches that site's own collection"""
+    run = ctx.run
+    run.rule('R-SITE', "repair_dna collects the fragments of each detected error independently: the store of a fragment "
+                       "into its site's collection is not conditioned on a collection shared between sites")
+    f = ctx.p.func('dsw.spiderweb.repair_dna')
+    n = 0
+    for nd in f.nodes:
+        for d in nd.defs:
+            if d.kind != 'mutate' or not isinstance(d.extra, ast.Attribute) or d.extra.attr not in ('add', 'append'):
+                continue
+            t = f.term(d.value, nd)
+            arg = t[2][0] if t[2] else None
+            # fragment = second component of an element of path_matching(...)[0]
+            if arg is None or not any(call_name(x) and call_name(x).endswith('.path_matching') for x in walk_term(arg)):
+                continue
+            recv = d.extra.value
+            if not isinstance(recv, ast.Subscript):
+                continue            # a plain shared collection is judged below through the conditions
+            n += 1
+            shared = []
+            for atom, pol in ctx.conds(f, nd):
+                if atom[0] == 'cmp' and atom[1] == 'in' and atom[3][0] == 'v' and isinstance(atom[3][2], tuple):
+                    c = atom[3]
+                    loops = nd.loops
+                    outer = loops[0] if loops else None
+                    defs = [f.defs[i] for i in c[2]]
+                    outside = any(outer is not None and outer not in f.nodes[x.node].loops for x in defs if x.kind == 'assign')
+                    grown = any(x.kind == 'mutate' for x in defs)
+                    if outside and grown and atom[2] == arg:
+                        shared.append(c[1])
+            run.check(not shared, 'R-SITE', f, 'site-collection-independent#%d' % n, nd.lineno,
+                      'a fragment reaches its site\'s collection whatever the other sites produced',
+                      "a fragment is dropped when it is already in `%s`, a collection shared by all error sites: a later site "
+                      "loses every fragment an earlier site also produced, so the original strand can vanish from the "
+                      "candidate product" % (shared[0] if shared else ''),
+                      inputs='two detected errors whose correct fragments coincide (repetitive strands, small graphs)')
+    run.floor('R-SITE', 'fragment stores in repair_dna', n, 1)
